@@ -18,7 +18,8 @@
 //        key   : s<hex|-> std::string | u<hex> uint64_t | i<shex> int64_t | f<hexbits> float
 //                | d<hexbits> double | t<shex>_<shex> CBinTimestamp
 //        target: u1 u8 u16 u32 u64 c8 s8 s16 s32 s64 nil f32 f64 str ts
-//   answer: <tokens> END <pos> <sentinel>   |   <tokens> ERR <cat>   |  (process) TERMINATE
+//   answer: <tokens> END <pos> <sentinel> <fin>   |   <tokens> ERR <cat>   |  (process) TERMINATE
+//     fin: kinds m, s: CF0 | CF1 = IMsgPackReader::IsCloseScopeFailed(); kinds M, S: OK | ERR:<cat> = MsgPackReadRootScope::Finalize()
 //     tokens (comma separated, '-' = none): T<value> | F | ( | ) | n | x<hex> | K[key;key..] | E0 | E1
 //     sentinel: one more ReadValue(int64_t&) after the root scope is gone: T<shex> | F | ERR:<cat>
 #include "common.h"
@@ -263,6 +264,12 @@ static std::string sentinel(R&& readInt64) {
 	} catch (...) { return "ERR:" + cat_of_current_exception(); }
 }
 
+// what LoadObject does after Serialize() returned normally
+static std::string finalize(MsgPackReadRootScope& root) {
+	try { root.Finalize(); return "OK"; }
+	catch (...) { return "ERR:" + cat_of_current_exception(); }
+}
+
 static void on_terminate() {
 	std::cout.flush();
 	const char msg[] = "TERMINATE\n";
@@ -294,6 +301,7 @@ int main() {
 					run_on_reader(r, ctx, arrayRoot, items);
 					tail = std::to_string(r.GetPosition());
 					tail += " " + sentinel([&](int64_t& v) { return r.ReadValue(v); });
+					tail += r.IsCloseScopeFailed() ? " CF1" : " CF0";
 				}
 				else if (kind == 's') {
 					std::istringstream is(data);
@@ -301,17 +309,20 @@ int main() {
 					run_on_reader(r, ctx, arrayRoot, items);
 					tail = std::to_string(r.GetPosition());
 					tail += " " + sentinel([&](int64_t& v) { return r.ReadValue(v); });
+					tail += r.IsCloseScopeFailed() ? " CF1" : " CF0";
 				}
 				else if (kind == 'M') {
 					MsgPackReadRootScope root(std::string_view(data), ctx);
 					run_on_root(root, arrayRoot, items);
 					tail = "? " + sentinel([&](int64_t& v) { return root.SerializeValue(v); });
+					tail += " " + finalize(root);
 				}
 				else if (kind == 'S') {
 					std::istringstream is(data);
 					MsgPackReadRootScope root(is, ctx);
 					run_on_root(root, arrayRoot, items);
 					tail = "? " + sentinel([&](int64_t& v) { return root.SerializeValue(v); });
+					tail += " " + finalize(root);
 				}
 				else throw DriverError{"bad kind"};
 				std::cout << (g_out.empty() ? "-" : g_out) << " END " << tail << std::endl;
